@@ -90,7 +90,9 @@ Definition replace_oracle (kd : kind) (m : list (pyv * pyv)) (cs : list val) (o 
       | _, _ => false
       end
   | _ =>
-      if negb (forallb (fun kv => numeric_value (fst kv) && numeric_value (snd kv)
+      (* values are numbers; any key: one that is no number equals no cell (unchanged copy, no exception);
+         a NaN key that is not a Python float (numpy.float32) is outside the claim *)
+      if negb (forallb (fun kv => (negb (pyv_is_nan (fst kv)) || is_float (fst kv)) && numeric_value (snd kv)
                                   && match nf kd (snd kv) with Ok _ => true | Raise _ => false end) m) then true else
       match replace_spec kd m cs, o with
       | Ok out, OCol k' cs' => kind_eqb kd k' && cells_same out cs'
